@@ -128,6 +128,9 @@ def body(chk, db, cfgname):
             nz = True
         if fa[0] == "<" and fa[1] == ("lit", 0) and key_contains(fa[2], lambda k: k == val):
             nz = True
+        # abs(Value) != 0, 0 != abs(Value), Value != MelemType(0) ... : any (in)equality of something built from Value with zero
+        if fa[0] == "!=" and any(x_ in (("lit", 0), ("lit", 0.0)) for x_ in fa[1:]) and any(isinstance(x_, tuple) and key_contains(x_, lambda k: k == val) for x_ in fa[1:]):
+            nz = True
     if nz:
         r1.ok(site + ":nonzero", f.loc(W), "store is under a non-zero test of T->Value", cfgname)
     else:
